@@ -57,15 +57,19 @@ def _render(v):
 
 
 def _unwrap(v):
-    """how consumers get bytes out of `node[()]` (widget/server code: `.tolist()` of np.void)"""
+    """how consumers get bytes out of `node[()]` (widget/server code: `.tolist()` of np.void);
+    None when the value is no byte string at all"""
     import h5py
     import numpy as np
 
     if isinstance(v, np.void):
-        return v.tolist()
+        r = v.tolist()
+        return r if isinstance(r, bytes) else None
     if isinstance(v, h5py.Empty):
         return b""
-    return ("not-bytes", repr(v)[:60])
+    if isinstance(v, (bytes, np.bytes_)):
+        return bytes(v)
+    return None
 
 
 def _mkval(kind, bs):
@@ -132,7 +136,7 @@ class _Side:
                 continue
             if got != bs:
                 oracle.append(dict(kind="bytes-differ", driver=self.drv, step=step, path=p, content=bs.hex(),
-                                   got=got.hex() if isinstance(got, bytes) else str(got)))
+                                   got=got.hex() if isinstance(got, bytes) else "not a byte string"))
             if m is None:
                 oracle.append(dict(kind="file-metadata-missing", driver=self.drv, step=step, path=p, content=bs.hex()))
                 continue
@@ -191,82 +195,90 @@ def impl(case):
         os.symlink("src file.bin", link)
         try:
             for step, op in enumerate(case["ops"]):
-                k = op[0]
-                if k == "pack":
-                    bs = files[op[1]]
-                    with open(src, "wb") as f:
-                        f.write(bs)
-                    for s in sides:
-                        _pack(s, link if op[3] else src, op[2], bs, oracle, step)
-                    n = len(bs)
-                    tags.add("len=%s" % (n if n in (0, 1) else "63-65" if 63 <= n <= 65 else "127-129" if 127 <= n <= 129 else "4095-4097" if 4095 <= n <= 4097 else "other"))
-                    if bs.endswith(b"\0"):
-                        tags.add("trailing-nul")
-                    if bs == b"\x7f":
-                        tags.add("marker")
-                    elif b"\x7f" in bs[:2]:
-                        tags.add("marker-like")
-                    if op[3]:
-                        tags.add("source-via-symlink")
-                elif k == "boundary":
-                    for s in sides:
-                        if s.drv == "ih5":
-                            s.mc.__wrapped__.commit_patch()
-                            s.mc.__wrapped__.create_patch()
-                        else:
-                            s.mc.flush()
-                    tags.add("patch-boundary")
-                elif k == "reopen":
-                    for s in sides:
-                        s.mc.close()
-                        s.mc = s._open("r")
-                        s.check("%d:read-only" % step, oracle)
-                        s.mc.close()
-                        s.mc = s._open("r+")
-                    tags.add("reopen")
-                elif k == "merge":
-                    for s in sides:
-                        if s.drv != "ih5":
-                            continue
-                        rec = s.mc.__wrapped__
-                        rec.commit_patch()
-                        s.gen += 1
-                        newname = "m%d-ih5" % s.gen
-                        rec.merge_files(os.path.join(top, newname))
-                        s.mc.close()
-                        s.name = newname
-                        s.mc = s._open("r+")
-                    tags.add("merge")
-                elif k in ("copy", "move"):
-                    a, b = op[1], op[2]
-                    for s in sides:
-                        moved = {p: v for p, v in s.expect.items() if p == a or p.startswith(a + "/")}
-                        if not moved and a not in s.mc:
-                            continue  # node absent on this side (marker file on IH5)
-                        try:
-                            getattr(s.mc, k)(a, b)
-                        except Exception as e:  # noqa: BLE001
-                            oracle.append(dict(kind="history-step-fails", driver=s.drv, step=step, op=op, exc=type(e).__name__, msg=str(e)[:100]))
-                            continue
-                        for p, v in moved.items():
-                            s.expect[b + p[len(a):]] = v
-                            if k == "move":
+                try:
+                    k = op[0]
+                    if k == "pack":
+                        bs = files[op[1]]
+                        with open(src, "wb") as f:
+                            f.write(bs)
+                        for s in sides:
+                            _pack(s, link if op[3] else src, op[2], bs, oracle, step)
+                        n = len(bs)
+                        tags.add("len=%s" % (n if n in (0, 1) else "63-65" if 63 <= n <= 65 else "127-129" if 127 <= n <= 129 else "4095-4097" if 4095 <= n <= 4097 else "other"))
+                        if bs.endswith(b"\0"):
+                            tags.add("trailing-nul")
+                        if bs == b"\x7f":
+                            tags.add("marker")
+                        elif b"\x7f" in bs[:2]:
+                            tags.add("marker-like")
+                        if op[3]:
+                            tags.add("source-via-symlink")
+                    elif k == "boundary":
+                        for s in sides:
+                            if s.drv == "ih5":
+                                s.mc.__wrapped__.commit_patch()
+                                s.mc.__wrapped__.create_patch()
+                            else:
+                                s.mc.flush()
+                        tags.add("patch-boundary")
+                    elif k == "reopen":
+                        for s in sides:
+                            s.mc.close()
+                            s.mc = s._open("r")
+                            s.check("%d:read-only" % step, oracle)
+                            s.mc.close()
+                            s.mc = s._open("r+")
+                        tags.add("reopen")
+                    elif k == "merge":
+                        for s in sides:
+                            if s.drv != "ih5":
+                                continue
+                            rec = s.mc.__wrapped__
+                            rec.commit_patch()
+                            s.gen += 1
+                            newname = "m%d-ih5" % s.gen
+                            rec.merge_files(os.path.join(top, newname))
+                            s.mc.close()
+                            s.name = newname
+                            s.mc = s._open("r+")
+                        tags.add("merge")
+                    elif k in ("copy", "move"):
+                        a, b = op[1], op[2]
+                        for s in sides:
+                            moved = {p: v for p, v in s.expect.items() if p == a or p.startswith(a + "/")}
+                            if not moved and a not in s.mc:
+                                continue  # node absent on this side (marker file on IH5)
+                            try:
+                                getattr(s.mc, k)(a, b)
+                            except Exception as e:  # noqa: BLE001
+                                oracle.append(dict(kind="history-step-fails", driver=s.drv, step=step, op=op, exc=type(e).__name__, msg=str(e)[:100]))
+                                continue
+                            for p, v in moved.items():
+                                s.expect[b + p[len(a):]] = v
+                                if k == "move":
+                                    del s.expect[p]
+                        tags.add(k + ("-group" if op[3] else "-dataset"))
+                    elif k == "del":
+                        for s in sides:
+                            gone = [p for p in s.expect if p == op[1] or p.startswith(op[1] + "/")]
+                            if not gone and op[1] not in s.mc:
+                                continue
+                            try:
+                                del s.mc[op[1]]
+                            except Exception as e:  # noqa: BLE001
+                                oracle.append(dict(kind="history-step-fails", driver=s.drv, step=step, op=op, exc=type(e).__name__, msg=str(e)[:100]))
+                                continue
+                            for p in gone:
                                 del s.expect[p]
-                    tags.add(k + ("-group" if op[3] else "-dataset"))
-                elif k == "del":
+                        tags.add("delete-other")
                     for s in sides:
-                        gone = [p for p in s.expect if p == op[1] or p.startswith(op[1] + "/")]
-                        if not gone and op[1] not in s.mc:
-                            continue
-                        del s.mc[op[1]]
-                        for p in gone:
-                            del s.expect[p]
-                    tags.add("delete-other")
-                for s in sides:
-                    s.check(step, oracle)
-                common = set(sides[0].expect) & set(sides[1].expect)
-                if len(common) >= 2:
-                    tags.add("several-files")
+                        s.check(step, oracle)
+                    common = set(sides[0].expect) & set(sides[1].expect)
+                    if len(common) >= 2:
+                        tags.add("several-files")
+                except Exception as e:  # noqa: BLE001 - a step of a valid history must not fail
+                    oracle.append(dict(kind="history-step-fails", step=step, op=op, exc=type(e).__name__, msg=str(e)[:100]))
+                    break
         finally:
             for s in sides:
                 s.close()
@@ -335,12 +347,17 @@ def _impl_bytes(case, top):
                 for s in sides:
                     t = "d/f%d" % i
                     out.append(_pack(s, src, t, bs, oracle, i))
-                    if t in s.expect:
-                        n = s.mc[t]
-                        m = n.meta.get("core.file")
-                        out.append("some %s %d %s" % (hx(_unwrap(n[()])), m.contentSize, m.sha256) if m else "some %s nometa" % hx(_unwrap(n[()])))
-                    else:
-                        out.append("some ?" if t in s.mc else "none")
+                    try:
+                        if t in s.expect:
+                            n = s.mc[t]
+                            m = n.meta.get("core.file")
+                            got = _unwrap(n[()])
+                            got = hx(got) if got is not None else "?"
+                            out.append("some %s %d %s" % (got, m.contentSize, m.sha256) if m else "some %s nometa" % got)
+                        else:
+                            out.append("some ?" if t in s.mc else "none")
+                    except Exception as e:  # noqa: BLE001
+                        out.append(_exc(e))
                 if i % 16 == 15 or i == len(case["data"]) - 1:
                     for s in sides:
                         s.check(i, oracle)
